@@ -18,6 +18,8 @@
 (*                           F = -Phi u of the harmonic model, projected to  *)
 (*                           the integers D^2 L Phi L^T; exact = the         *)
 (*                           projection residual is below tolerance          *)
+(*              conv, convexact,  the same for the array converted to the   *)
+(*                           other layout by the real code                   *)
 (*              err]         exception raised by the real code, "" if none   *)
 (*   arrays  = the distinct projected arrays                                 *)
 (*   ref     = index of the reference array the harness used for the forces  *)
@@ -62,6 +64,13 @@ ImplFCExact == Known => \A x \in Runs : Rn(x).err = "" =>
                   /\ Rn(x).exact
                   /\ ses.arrays[Rn(x).fc] = IF Rn(x).layout = "full" THEN fc
                                            ELSE [q \in 1..Len(Rn(x).p2s) |-> fc[Rn(x).p2s[q]]]
+
+(* converting the produced array to the other layout (full_fc_to_compact_fc / compact_fc_to_full_fc, the *)
+(* latter through distribute_force_constants_by_translations) gives the harmonic crystal's array too    *)
+ImplConvertExact == Known => \A x \in Runs : Rn(x).err = "" =>
+                  /\ Rn(x).convexact
+                  /\ ses.arrays[Rn(x).conv] = IF Rn(x).layout = "compact" THEN fc
+                                             ELSE [q \in 1..Len(Rn(x).p2s) |-> fc[Rn(x).p2s[q]]]
 
 ConformsReps == Known => \A x \in Runs : Rn(x).err = "" =>
                   Len(Rn(x).reps) = Cardinality(reps) /\ Cardinality(Rng(Rn(x).reps)) = Len(Rn(x).reps)
